@@ -149,8 +149,10 @@ class Ctx:
         'wall_s': round(time.time() - self.t0, 2), 'violations': len(self.violations),
     }
     if self.replay is None:
-      os.makedirs(EVID, exist_ok=True)
-      with open(os.path.join(EVID, f'{self.pid}.json'), 'w') as f:
+      # checks outside the listed properties (X..) keep their evidence apart from the claimed ones
+      edir = EVID if not self.pid.startswith('X') else os.path.join(ROOT, 'evidence_extensions')
+      os.makedirs(edir, exist_ok=True)
+      with open(os.path.join(edir, f'{self.pid}.json'), 'w') as f:
         json.dump(ev, f, indent=1)
     print(f'{self.pid} {self.tier}: evaluations={self.evaluations} nontrivial={cov["distinct_nontrivial"]} '
           f'states={self.states} traces={self.traces} violations={len(self.violations)} '
